@@ -42,7 +42,7 @@ var Meta = map[string]PropMeta{
 		Assumptions: []string{"reference model of selection/update rule (verif/sim/model) is correct", "A4 (CLI local copy) uses io.Pipe inside the code under test: its interleaving is chosen by the Go runtime, only hang detection is exact there", "file sizes up to 3 MiB quick / 12 MiB thorough"},
 		Real:        realCommon, Stub: stubCommon,
 		Quick:    q(3000, 40*time.Second),
-		Thorough: q(20000, 20*time.Minute),
+		Thorough: q(1000000, 20*time.Minute),
 	},
 	"C19": {
 		Level:       "exploration",
@@ -61,7 +61,7 @@ var Meta = map[string]PropMeta{
 		Assumptions: []string{"input/configuration-quantified; SSH key exchange uses crypto/rand, so event logs (not verdicts) differ between runs", "built with the repository's nonamespacing tag and GOKRAZY_RSYNC_PRIVDROP=1 so that the daemon does not re-execute itself in a mount namespace; landlock relaxed through restrict.ExtraHook", "only the anonymous listener is held to 'daemon protocol only' (command mode is the documented use of the authorised one)"},
 		Real:        append([]string{"internal/anonssh", "internal/maincmd daemon branch", "internal/rsyncdconfig", "golang.org/x/crypto/ssh (server and client)"}, realCommon...), Stub: append([]string{"non-parking simulated connections (x/crypto/ssh holds a mutex across Write)"}, stubCommon...),
 		Quick:            q(300, 60*time.Second),
-		Thorough:         q(4000, 25*time.Minute),
+		Thorough: q(1000000, 25*time.Minute),
 		ExtraTags:        "nonamespacing",
 		Env:              []string{"GOKRAZY_RSYNC_PRIVDROP=1"},
 		MaxJobsPerWorker: 10,
@@ -73,7 +73,7 @@ var Meta = map[string]PropMeta{
 		Assumptions: []string{"refproto is the trusted base (go test ./refproto validates it against /usr/bin/rsync --protocol=27 when present)", "file sizes <= 3 MiB"},
 		Real:        realCommon, Stub: append([]string{"peer: reference protocol-27 receiver/sender (verif/sim/refproto)", "sender disk for fs.FS modules: simfs with seeded short reads"}, stubCommon...),
 		Quick:     q(4000, 40*time.Second),
-		Thorough:  q(30000, 20*time.Minute),
+		Thorough: q(1000000, 20*time.Minute),
 		EnumTotal: 63504,
 	},
 	"C03": {
@@ -101,7 +101,7 @@ var Meta = map[string]PropMeta{
 		Assumptions: []string{"runs as root, so ownership and device creation are really attempted", "a crash of the receiver is recorded as a probe here and judged by C08"},
 		Real:        realCommon, Stub: append([]string{"hostile peer: reference sender"}, stubCommon...),
 		Quick:     q(6000, 35*time.Second),
-		Thorough:  q(30000, 20*time.Minute),
+		Thorough: q(1000000, 20*time.Minute),
 		EnumTotal: 2448, // 34 vectors x 6 types x 6 option sets x 2 sides, enumerated first by the thorough tier
 	},
 	"C06": {
@@ -111,7 +111,7 @@ var Meta = map[string]PropMeta{
 		Assumptions: []string{"canary contents are 2 KB random strings so accidental occurrence is impossible", "link target strings of symlinks inside the module are module data and may name outside paths"},
 		Real:        realCommon, Stub: append([]string{"hostile peer: reference receiver"}, stubCommon...),
 		Quick:    q(8000, 35*time.Second),
-		Thorough: q(40000, 20*time.Minute),
+		Thorough: q(1000000, 20*time.Minute),
 	},
 	"C07": {
 		Level:       "exploration",
@@ -120,7 +120,7 @@ var Meta = map[string]PropMeta{
 		Assumptions: []string{"refproto sender is the hostile peer"},
 		Real:        realCommon, Stub: append([]string{"hostile peer: reference sender"}, stubCommon...),
 		Quick:    q(5000, 35*time.Second),
-		Thorough: q(15000, 15*time.Minute),
+		Thorough: q(1000000, 15*time.Minute),
 	},
 	"C08": {
 		Level:       "fault_enumeration",
@@ -129,7 +129,7 @@ var Meta = map[string]PropMeta{
 		Assumptions: []string{"stalled peers and declared multi-gigabyte sizes are outside the guarantee (never generated)", "a crash is identified by panic message and top /repo frame, which is also the known-finding key"},
 		Real:        realCommon, Stub: append([]string{"hostile peer: reference peer with single-field mutation"}, stubCommon...),
 		Quick:    q(1500, 60*time.Second),
-		Thorough: q(20000, 25*time.Minute),
+		Thorough: q(1000000, 25*time.Minute),
 	},
 	"C09": {
 		Level:       "exploration",
@@ -138,7 +138,7 @@ var Meta = map[string]PropMeta{
 		Assumptions: []string{"model of exclude-rule protection: an entry is protected iff it or a parent matches an exclude rule (rsync semantics without --delete-excluded)"},
 		Real:        realCommon, Stub: append([]string{"sender disk (I/O error runs): simfs"}, stubCommon...),
 		Quick:    q(6000, 35*time.Second),
-		Thorough: q(20000, 15*time.Minute),
+		Thorough: q(1000000, 15*time.Minute),
 	},
 	"C10": {
 		Level:       "exploration",
@@ -147,7 +147,7 @@ var Meta = map[string]PropMeta{
 		Assumptions: []string{"A4: no wire tap (io.Pipe inside the code under test), snapshot oracle only"},
 		Real:        realCommon, Stub: stubCommon,
 		Quick:    q(6000, 35*time.Second),
-		Thorough: q(20000, 15*time.Minute),
+		Thorough: q(1000000, 15*time.Minute),
 	},
 	"C11": {
 		Level:       "exploration",
@@ -156,7 +156,7 @@ var Meta = map[string]PropMeta{
 		Assumptions: []string{"input/configuration-quantified: schedules vary per run but do not decide this property", "directory mtimes and modes of newly created files without -p are unconstrained by the property"},
 		Real:        realCommon, Stub: stubCommon,
 		Quick:           q(6000, 35*time.Second),
-		Thorough:        q(20000, 15*time.Minute),
+		Thorough: q(1000000, 15*time.Minute),
 		NonRootFraction: 0.25,
 	},
 	"C12": {
@@ -166,7 +166,7 @@ var Meta = map[string]PropMeta{
 		Assumptions: []string{"refproto sender is the trusted base", "mtimes within the signed 32-bit range"},
 		Real:        realCommon, Stub: append([]string{"table mode: sending peer is the reference sender"}, stubCommon...),
 		Quick:    q(2500, 35*time.Second),
-		Thorough: q(10000, 15*time.Minute),
+		Thorough: q(1000000, 15*time.Minute),
 	},
 	"C13": {
 		Level:       "exploration",
@@ -175,7 +175,7 @@ var Meta = map[string]PropMeta{
 		Assumptions: []string{"model written from the property statement; anchored ('/name'), directory-only ('name/'), path ('dir/name') and '!' rules are outside the generated domain"},
 		Real:        realCommon, Stub: stubCommon,
 		Quick:    q(8000, 35*time.Second),
-		Thorough: q(30000, 15*time.Minute),
+		Thorough: q(1000000, 15*time.Minute),
 	},
 	"C14": {
 		Level:       "exploration",
@@ -184,7 +184,7 @@ var Meta = map[string]PropMeta{
 		Assumptions: []string{"runs as root so devices can be created", "sampled option subsets (2^20 x arrangements is not enumerated)"},
 		Real:        realCommon, Stub: stubCommon,
 		Quick:    q(2000, 45*time.Second),
-		Thorough: q(8000, 20*time.Minute),
+		Thorough: q(1000000, 20*time.Minute),
 	},
 	"C15": {
 		Level:       "exploration",
@@ -193,7 +193,7 @@ var Meta = map[string]PropMeta{
 		Assumptions: []string{"refproto is the trusted base", "encode mode observes the receiver through its list-only output (mode string, size, mtime, name); uid/gid/rdev/link decoding is observed indirectly: a mis-decoded optional field desynchronises the following entries"},
 		Real:        realCommon, Stub: append([]string{"peer: reference receiver / sender"}, stubCommon...),
 		Quick:    q(4000, 40*time.Second),
-		Thorough: q(10000, 20*time.Minute),
+		Thorough: q(1000000, 20*time.Minute),
 	},
 	"C16": {
 		Level:       "exploration",
@@ -202,7 +202,7 @@ var Meta = map[string]PropMeta{
 		Assumptions: []string{"bound constant 3 is deliberately loose (an edit spoils the blocks it overlaps plus neighbours)", "refproto parser is the trusted base"},
 		Real:        realCommon, Stub: append([]string{"mode ref: receiving peer is the reference receiver"}, stubCommon...),
 		Quick:    q(1500, 45*time.Second),
-		Thorough: q(8000, 20*time.Minute),
+		Thorough: q(1000000, 20*time.Minute),
 	},
 	"C17": {
 		Level:       "exploration",
@@ -211,7 +211,7 @@ var Meta = map[string]PropMeta{
 		Assumptions: []string{"frame sizes above 256 KiB are not generated: the client documents that limit and no known rsync sends them"},
 		Real:        realCommon, Stub: append([]string{"middlebox (harness) between server and client"}, stubCommon...),
 		Quick:    q(1500, 45*time.Second),
-		Thorough: q(10000, 20*time.Minute),
+		Thorough: q(1000000, 20*time.Minute),
 	},
 	"C18": {
 		ExtraTags:        "nonamespacing",
@@ -222,7 +222,7 @@ var Meta = map[string]PropMeta{
 		Assumptions:      []string{"race detection is happens-before analysis on free-running in-memory transports (not schedule search): the deterministic scheduler would add happens-before edges", "A4 interleaving is chosen by the Go runtime; hang detection there is exact via synctest quiescence", "capacities below 12 bytes are not generated for daemon arrangements (greeting deadlock is protocol-inherent)"},
 		Real:             realCommon, Stub: stubCommon,
 		Quick:        q(1500, 60*time.Second),
-		Thorough:     q(20000, 25*time.Minute),
+		Thorough: q(1000000, 25*time.Minute),
 		RaceFraction: 0.25,
 	},
 }
